@@ -38,8 +38,15 @@ HEAP = os.environ.get("VERIF_TLC_HEAP", "8g")
 
 # ---------------------------------------------------------------- gamma: abstract -> real
 PYTYPE = {"int": "int", "str": "str", "bool": "bool", "listint": "List[int]", "enum": "Color",
+          "dictint": "Dict[str, int]", "tupis": "Tuple[int, str]",
           "opt_int": "Optional[int]", "opt_str": "Optional[str]", "opt_bool": "Optional[bool]",
-          "opt_listint": "Optional[List[int]]", "opt_enum": "Optional[Color]"}
+          "opt_listint": "Optional[List[int]]", "opt_enum": "Optional[Color]",
+          "opt_dictint": "Optional[Dict[str, int]]", "opt_tupis": "Optional[Tuple[int, str]]"}
+
+
+def _dict_of(v) -> dict:
+    d = v["d"]
+    return {} if d == [] else {str(k): int(x) for k, x in d.items()}
 
 
 def py_literal(v) -> str:
@@ -56,6 +63,10 @@ def py_literal(v) -> str:
         return repr([int(x) for x in v["l"]])
     if k == "enum":
         return "Color." + v["e"]
+    if k == "dict":
+        return repr(_dict_of(v))
+    if k == "tup":
+        return repr((int(v["ti"]), v["ts"]))
     raise ValueError(f"no literal for {v}")
 
 
@@ -82,7 +93,7 @@ def body_text(logname: str, params, ret: bool, indent: str) -> str:
 
 
 def module_source(leaves) -> str:
-    src = ["from enum import Enum", "from typing import List, Optional", "", "LOG = []", "", "",
+    src = ["from enum import Enum", "from typing import Dict, List, Optional, Tuple", "", "LOG = []", "", "",
            "class Color(Enum):", "    A = 1", "    B = 2", "", ""]
     seen = set()
     for lf in leaves:
@@ -117,6 +128,10 @@ def text_of(v) -> str:
         return "null"
     if k == "list":
         return json.dumps([int(x) for x in v["l"]], separators=(",", ":"))   # no blank: argparse takes "--x=[1, 2]" for a word
+    if k == "dict":
+        return json.dumps(_dict_of(v), separators=(",", ":"))
+    if k == "tup":
+        return json.dumps([int(v["ti"]), v["ts"]], separators=(",", ":"))
     raise ValueError(f"no text for {v}")
 
 
@@ -135,6 +150,10 @@ def json_of(v):
         return None
     if k == "list":
         return [int(x) for x in v["l"]]
+    if k == "dict":
+        return _dict_of(v)
+    if k == "tup":
+        return [int(v["ti"]), v["ts"]]
     raise ValueError(f"no json for {v}")
 
 
@@ -200,6 +219,10 @@ def alpha(v):
         return {"k": "str", "s": v}
     if type(v) is list and all(type(x) is int for x in v):
         return {"k": "list", "l": list(v)}
+    if type(v) is dict and all(type(k) is str and type(x) is int for k, x in v.items()):
+        return {"k": "dict", "d": dict(v)}
+    if type(v) is tuple and len(v) == 2 and type(v[0]) is int and type(v[1]) is str:
+        return {"k": "tup", "ti": v[0], "ts": v[1]}
     if type(v).__name__ == "Color" and hasattr(v, "name"):
         return {"k": "enum", "e": v.name}
     return {"k": "other", "s": f"{type(v).__name__}:{v!r}"[:80]}
@@ -263,8 +286,11 @@ def execute(case, flavour: int, scratch: str):
 
 
 def canon_outcome(o) -> str:
+    def val(x):      # TLC prints an empty function as []
+        return {"k": "dict", "d": {}} if x.get("k") == "dict" and x["d"] == [] else x
+
     def kw(x):
-        return {} if x == [] else x
+        return {} if x == [] else {n: val(v) for n, v in x.items()}
     return json.dumps({"out": o["out"], "calls": [{"name": c["name"], "kw": kw(c["kw"])} for c in o["calls"]], "ret": o["ret"]},
                       sort_keys=True)
 
@@ -314,11 +340,17 @@ def run_isolated(case, flavour, scratch):
 
 
 # ---------------------------------------------------------------- random cases beyond TLC's bounds
-TYPES = ["int", "str", "bool", "opt_int", "listint", "enum"]
+TYPES = ["int", "str", "bool", "opt_int", "listint", "enum", "int", "str", "opt_listint", "opt_dictint", "opt_tupis", "dictint", "tupis"]
 
 
 def rnd_value(rnd, t, src, which=None):
     w = which if which is not None else rnd.randint(1, 3)
+    if t.startswith("opt_") and t != "opt_int":
+        return {"k": "null"} if rnd.random() < 0.25 else rnd_value(rnd, t[4:], src, which)
+    if t == "dictint":
+        return {"k": "dict", "d": ({} if rnd.random() < 0.3 else {rnd.choice(["k", "q"]): rnd.randint(0, 9)})}
+    if t == "tupis":
+        return {"k": "tup", "ti": rnd.randint(0, 9), "ts": rnd.choice(["y", "z"])}
     if t == "int":
         return {"k": "int", "i": [3, -2, 40, 0][w % 4] if w < 3 else rnd.randint(-99, 999)}
     if t == "str":
@@ -338,6 +370,10 @@ def rnd_value(rnd, t, src, which=None):
 
 
 def rnd_wrong(rnd, t, src):
+    if t.startswith("opt_") and t != "opt_int":
+        t = t[4:]
+    if t in ("dictint", "tupis"):
+        return {"k": "int", "i": 3}
     return {"int": {"k": "str", "s": "ab"}, "str": ({"k": "bool", "b": True} if src == "argv" else {"k": "int", "i": 12}),
             "bool": {"k": "int", "i": 1}, "opt_int": {"k": "bool", "b": True}, "listint": {"k": "int", "i": 3},
             "enum": {"k": "str", "s": "Z"}}[t]
@@ -354,7 +390,13 @@ def rnd_default(rnd, t):
         return rnd.choice([{"k": "int", "i": 5}, {"k": "null"}])
     if t == "listint":
         return rnd.choice([{"k": "list", "l": [1, 2]}, {"k": "list", "l": []}, {"k": "null"}])
-    return rnd.choice([{"k": "enum", "e": "B"}, {"k": "enum", "e": "A"}])
+    if t == "enum":
+        return rnd.choice([{"k": "enum", "e": "B"}, {"k": "enum", "e": "A"}])
+    if t.startswith("opt_"):
+        return rnd.choice([{"k": "null"}, rnd_default(rnd, t[4:])])
+    if t == "dictint":
+        return rnd.choice([{"k": "dict", "d": {"a": 1}}, {"k": "dict", "d": {}}, {"k": "null"}])
+    return rnd.choice([{"k": "tup", "ti": 1, "ts": "x"}, {"k": "null"}])
 
 
 PNAMES = ["a", "b", "c", "d", "e", "f", "x1", "flag", "n_2", "val", "p", "co"]
@@ -414,6 +456,37 @@ def rnd_level_tokens(rnd, ps, aspos, p_bad=0.06):
             oi += 1
     toks = ([{"k": "cfg", "m": early}] if early else []) + mid + ([{"k": "cfg", "m": late}] if late else [])
     return toks
+
+
+def full_map(rnd, leaves, lvl, sel, expl):
+    """ONE config for the whole component (FullMap of MC_Cli): settings of every level, sections for all sibling
+    sub-commands; expl: the sub-commands along `sel` are selected by "subcommand" keys inside the config"""
+    def settings(ps):
+        return {p["n"]: rnd_value(rnd, p["t"], "cfg") for p in ps if not (p["n"].startswith("_") and not is_required(p))}
+
+    leaf = next((lf for lf in leaves if lf["path"] == lvl), None)
+    out, subs = {}, []
+    if leaf is not None:
+        out = settings(leaf["c"]["params"])
+        if leaf["c"]["k"] == "cls":
+            for m in leaf["c"]["methods"]:
+                sec = settings(m["params"])
+                subs.append(m["name"])
+                if sec:
+                    out[m["name"]] = {"k": "map", "m": sec}
+    else:
+        is_method = any(lf["path"] == lvl[:-1] and lf["c"]["k"] == "cls" for lf in leaves) if lvl else False
+        if not is_method:
+            for lf in leaves:
+                if lf["path"][:len(lvl)] == lvl and len(lf["path"]) > len(lvl) and lf["path"][len(lvl)] not in subs:
+                    subs.append(lf["path"][len(lvl)])
+            for name in subs:
+                sec = full_map(rnd, leaves, lvl + [name], sel, expl)
+                if sec:
+                    out[name] = {"k": "map", "m": sec}
+    if expl and subs and len(sel) > len(lvl) and sel[:len(lvl)] == lvl:
+        out["subcommand"] = {"k": "str", "s": sel[len(lvl)]}
+    return out
 
 
 def rnd_case(rnd, idx):
@@ -481,6 +554,12 @@ def rnd_case(rnd, idx):
                 for name in reversed(lf["path"]):
                     m2 = {name: {"k": "map", "m": m2}}
                 toks = [{"k": "cfg", "m": m2}]
+    # the whole component configured by one --config: sections for sibling sub-commands at every level, selection inside
+    if rnd.random() < 0.12 and (lf["path"] or lf["c"]["k"] == "cls"):
+        sel = list(lf["path"]) + ([rnd.choice(lf["c"]["methods"])["name"]] if lf["c"]["k"] == "cls" else [])
+        m = full_map(rnd, leaves, [], sel, rnd.random() < 0.6)
+        if m:
+            toks = [{"k": "cfg", "m": m}]
     return {"id": ["R", idx], "aspos": aspos, "leaves": leaves, "argv": toks}
 
 
@@ -504,22 +583,10 @@ def nontrivial_key(case, obs):
     return hashlib.sha1((sig + toks).encode()).hexdigest()
 
 
-def _merge_own_findings(rep):
-    """known_findings.json is generated from tools/findings.d by the maintainer; until it is regenerated the fragment of
-    this property is read directly so that the check is self-contained (same matching rules, nothing is written)."""
-    frag = common.VERIF / "tools" / "findings.d" / f"{PID}.json"
-    if frag.exists():
-        have = {f["key"] for f in rep._known}
-        for f in json.loads(frag.read_text()):
-            if f.get("property") == PID and f.get("status") == "known" and f["key"] not in have:
-                rep._known.append(f)
-
-
 # ---------------------------------------------------------------- main
 def main(argv):
     tier = "thorough" if (argv and argv[0] == "thorough") else "quick"
     rep = Report(PID, tier)
-    _merge_own_findings(rep)
     rnd = common.rng(PID)
     rep.assumptions = [
         "the conversion of one value to the declared type is shared by Ref and Alg (it is the subject of C02): values are drawn from a vocabulary whose text form is unambiguous (ints, plain words, true/false, null, JSON lists, enum names)",
@@ -580,7 +647,7 @@ def main(argv):
         rep.extra["mc_cases_with_deviation"] = sum(1 for c in cases if c.get("dev"))
 
         # ---- random cases beyond the bounds
-        nrand = 2500 if tier == "quick" else 25000
+        nrand = 2000 if tier == "quick" else 25000
         rcases = [rnd_case(rnd, i) for i in range(nrand)]
         rflav = [flavour_of(i, common.seed() + 17) for i in range(nrand)]
         rres = run_all(rcases, rflav, scratch)
